@@ -9,7 +9,7 @@
 (* Outcome \in {"ok", "error:<class>", "panic"}; the invariant NeverPanics *)
 (* is Level 1's first conjunct at design level.                            *)
 (***************************************************************************)
-EXTENDS Opts, Sig, Json, IOUtils
+EXTENDS Opts, Sig, Params, Json, IOUtils
 CONSTANTS MaxToks, DumpCases
 R == INSTANCE Req
 
@@ -45,6 +45,12 @@ TraitDelegs == {"none", "ref", "borrow", "custom+target", "ref+target", "custom-
 TraitExtras == {"none", "const-item", "assoc-type", "static-method", "self-by-value", "default-body", "generic-method", "macro-item"}
 TraitCases == { [kind |-> "trait", pat |-> p, deleg |-> d, extra |-> x] : p \in TraitPats, d \in TraitDelegs, x \in TraitExtras }
 
+\* (e) every parameter-pattern symbol of Params (C16's alphabet) as the single further parameter of a function in
+\* fn / mod / impl-block position and of a trait method, with ordinary, would-be-generated and raw function names
+PatCases == { [kind |-> "pat", pos |-> ps, sym |-> sy, f |-> fn] :
+              ps \in {"fn", "mod", "impl", "trait"}, sy \in { x \in AllSyms : SymOkAt(x, 1) }, fn \in { Nm("foo"), Nm("arg0"), RawNm("match") } }
+PatCasesOK == { x \in PatCases : ValidOriginal(<<x.sym>>, x.f) }
+
 \* ------------------------------------------------------------------------
 \* Level 2: the outcome of each case
 \* ------------------------------------------------------------------------
@@ -67,8 +73,10 @@ OutcomeTrait(c) ==
   ELSE IF c.extra \in {"const-item", "macro-item"} THEN Err("unsupported-trait-item")
   ELSE IF c.deleg = "target-only" THEN Err("target-trait-without-delegate-by")
   ELSE Ok
+\* the renaming stage never fails (Params!Final has no panic outcome any more)
+OutcomePat(c) == IF Final(<<c.sym>>, c.f).panic THEN [outcome |-> "panic", class |-> ""] ELSE Ok
 Outcome(c) == CASE c.kind = "attr" -> OutcomeAttr(c) [] c.kind = "item" -> OutcomeItem(c)
-                [] c.kind = "deps" -> OutcomeDeps(c) [] c.kind = "trait" -> OutcomeTrait(c)
+                [] c.kind = "deps" -> OutcomeDeps(c) [] c.kind = "trait" -> OutcomeTrait(c) [] c.kind = "pat" -> OutcomePat(c)
 
 \* documented misuses: single faults injected into valid invocations (Level 1's `fault`)
 Fault(c) ==
@@ -93,7 +101,7 @@ Fault(c) ==
     [] OTHER -> ""
 OptName(c) == IF c.kind = "attr" /\ Len(c.attr.opts) >= 1 THEN c.attr.opts[1].k ELSE ""
 
-AllCases == AttrCasesOK \cup ItemCases \cup DepsCasesOK \cup TraitCases
+AllCases == AttrCasesOK \cup ItemCases \cup DepsCasesOK \cup TraitCases \cup PatCasesOK
 
 \* ---- the machine: each case is driven to its outcome in named steps
 VARIABLES c, pc, out
@@ -101,12 +109,13 @@ vars == <<c, pc, out>>
 Init == c \in AllCases /\ pc = "classify" /\ out = Ok
 ClassifyItem == /\ pc = "classify"
                 /\ IF c.kind = "item" THEN out' = OutcomeItem(c) /\ pc' = "done"
-                   ELSE out' = out /\ pc' = (IF c.kind = "attr" THEN "attr" ELSE IF c.kind = "deps" THEN "analyze" ELSE "trait")
+                   ELSE out' = out /\ pc' = (CASE c.kind = "attr" -> "attr" [] c.kind = "deps" -> "analyze" [] c.kind = "pat" -> "params" [] OTHER -> "trait")
                 /\ UNCHANGED c
 ParseAttr    == pc = "attr" /\ out' = OutcomeAttr(c) /\ pc' = "done" /\ UNCHANGED c
 AnalyzeFnDeps == pc = "analyze" /\ out' = OutcomeDeps(c) /\ pc' = "done" /\ UNCHANGED c
 TraitChecks  == pc = "trait" /\ out' = OutcomeTrait(c) /\ pc' = "done" /\ UNCHANGED c
-Next == ClassifyItem \/ ParseAttr \/ AnalyzeFnDeps \/ TraitChecks
+FixParamIdents == pc = "params" /\ out' = OutcomePat(c) /\ pc' = "done" /\ UNCHANGED c
+Next == ClassifyItem \/ ParseAttr \/ AnalyzeFnDeps \/ TraitChecks \/ FixParamIdents
 Spec == Init /\ [][Next]_vars
 
 NeverPanics == out.outcome # "panic"
@@ -116,7 +125,8 @@ MisuseRejected == pc = "done" /\ Fault(c) # "" => out.outcome = "error" /\ out.c
 CaseRec(x) == [ c |-> x, pred |-> Outcome(x), fault |-> Fault(x), optname |-> OptName(x),
                 attrtext |-> IF x.kind = "attr" THEN AttrText(x.target, x.attr) ELSE "",
                 paramtext |-> IF x.kind = "deps" THEN ParamText(x.ty) ELSE "",
-                secondtext |-> IF x.kind = "deps" THEN ParamText(x.second) ELSE "" ]
+                secondtext |-> IF x.kind = "deps" THEN ParamText(x.second) ELSE "",
+                ptext |-> IF x.kind = "pat" THEN PText(x.sym, 1, x.f) ELSE "", fname |-> IF x.kind = "pat" THEN NText(x.f) ELSE "" ]
 ASSUME DumpCases => ndJsonSerialize(IOEnv.OUT, SetToSeq({ CaseRec(x) : x \in AllCases }))
 ASSUME PrintT(<<"CASES", Cardinality(AllCases), "FAULTS", Cardinality({ x \in AllCases : Fault(x) # "" })>>)
 =============================================================================
